@@ -18,20 +18,34 @@ SPILL_CODES = {0: "ok", 1: "spill-model-differs", 8: "long-offset-unmodelled", 9
 HEADER = "From SwayV Require Import Base.Util Asm.Model C08.Spec C08.Model C08.Judge.\nLocal Open Scope N_scope.\n"
 
 
+def chunked_sum(terms, indent="    "):
+    """sum of many terms in chunks of 6 (the type checker is super-linear in the length of one operator
+    chain); all terms are still live when the first chunk is evaluated"""
+    lines, acc = [], None
+    for k in range(0, len(terms), 6):
+        part = " + ".join(terms[k:k + 6])
+        lines.append("%slet acc%d: u64 = %s%s;\n" % (indent, k, (acc + " + ") if acc else "", part))
+        acc = "acc%d" % k
+    return "".join(lines), acc
+
+
 def gen_spill_fn(rng, name, n, shape):
     cs = [(rng.randint(1, 9), rng.randint(0, 99)) for _ in range(n)]
     val = lambda i, a, b: a * cs[i][0] + b + cs[i][1]
     if shape == "locals":
-        body = "".join("    let v%d = a * %d + b + %d;\n" % (i, cs[i][0], cs[i][1]) for i in range(n))
+        body = "".join("    let v%d: u64 = a * %d + b + %d;\n" % (i, cs[i][0], cs[i][1]) for i in range(n))
         order = list(range(n)); rng.shuffle(order)
-        body += "    " + " + ".join("v%d * %d" % (i, k + 1) for k, i in enumerate(order)) + "\n"
+        lines, acc = chunked_sum(["v%d * %d" % (i, k + 1) for k, i in enumerate(order)])
+        body += lines + "    " + acc + "\n"
         ev = lambda a, b: sum(val(i, a, b) * (k + 1) for k, i in enumerate(order))
     elif shape == "loop":
-        body = "".join("    let v%d = a * %d + b + %d;\n" % (i, cs[i][0], cs[i][1]) for i in range(n))
-        body += "    let mut i = 0;\n    let mut s = 0;\n    while i < b {\n        s = s + i * a;\n        i = i + 1;\n    }\n"
-        body += "    s + " + " + ".join("v%d" % i for i in range(n)) + "\n"
+        body = "".join("    let v%d: u64 = a * %d + b + %d;\n" % (i, cs[i][0], cs[i][1]) for i in range(n))
+        body += "    let mut i: u64 = 0;\n    let mut s: u64 = 0;\n    while i < b {\n        s = s + i * a;\n        i = i + 1;\n    }\n"
+        lines, acc = chunked_sum(["v%d" % i for i in range(n)])
+        body += lines + "    s + " + acc + "\n"
         ev = lambda a, b: sum(i * a for i in range(b)) + sum(val(i, a, b) for i in range(n))
     else:  # right-nested xor: every left operand stays live
+        n = min(n, 50)
         expr = "(a * %d + b + %d)" % cs[n - 1]
         for i in range(n - 2, -1, -1):
             expr = "((a * %d + b + %d) ^ %s)" % (cs[i][0], cs[i][1], expr)
@@ -43,10 +57,12 @@ def gen_spill_fn(rng, name, n, shape):
     return "#[inline(never)]\nfn %s(a: u64, b: u64) -> u64 {\n%s}\n" % (name, body), ev
 
 
-def gen_spill_pkg(rng, base, name, nfn):
+def gen_spill_pkg(rng, base, name, nfn, shapes=("locals", "nested", "loop", "locals")):
+    """debug builds keep locals in memory, so only the nested shape creates register pressure there;
+    release builds (mem2reg) spill on all shapes"""
     src, tests, meta = "library;\n\n", "", []
     for k in range(nfn):
-        n, shape = rng.randint(38, 75), rng.choice(["locals", "nested", "loop", "locals"])
+        n, shape = rng.randint(38, 75), rng.choice(list(shapes))
         s, ev = gen_spill_fn(rng, "f%d" % k, n, shape)
         src += s + "\n"; meta.append((n, shape))
         for (a, b) in [(3, 5), (0, 0), (rng.randint(1, 1000), rng.randint(0, 40))]:
@@ -128,7 +144,7 @@ def run(ctx):
     gen_meta = {}
     rel_pkgs = []
     for k in range(1 if ctx.quick else 6):
-        d, meta = gen_spill_pkg(ctx.rng, base, "spill_dbg_%d" % k, 3 if ctx.quick else 6)
+        d, meta = gen_spill_pkg(ctx.rng, base, "spill_dbg_%d" % k, 3 if ctx.quick else 6, shapes=("nested",))
         pkgs.append(d); kinds_of[d] = "generated-spill"; gen_meta[d] = meta
         d, meta = gen_spill_pkg(ctx.rng, base, "spill_rel_%d" % k, 3 if ctx.quick else 6)
         rel_pkgs.append(d); kinds_of[d] = "generated-spill-release"; gen_meta[d] = meta
@@ -169,6 +185,7 @@ def run(ctx):
             seen[key] = 1
             if kind == "spill": nspillrec += 1
             cases.append((kind, v, cm, d))
+        if not ctx.quick and os.path.exists(dump): os.remove(dump)    # dumps are large
     if not cases:
         ctx.violation("no-dumps", {"status": status}, "no allocator dumps were produced (hooks missing or packages failed)", no_input=True)
         return
